@@ -50,7 +50,39 @@ def cases(tier, seed):
             for d in range(r.choice([4, 5, 6])):
                 chain = {"hook": True, "members": [[f"lvl{d}", chain]]}
             mods.append(["emdverif_chain", chain])
+        # a sub-module reachable by TWO paths of different length (sub-modules import one another): the same module object
+        # hangs under its parent and, as member `al`, under a hooked sibling whose name sorts first; the class sits at the
+        # depth limit by the short path
+        if r.random() < 0.4:
+            depth_below = r.choice([3, 4, 4, 5])
+            chain = {"hook": True, "members": [["Kshared", {"cls": r.choice(BASES), "indirect": False}]]}
+            for d in range(depth_below - 1):
+                chain = {"hook": True, "members": [[f"m{d}", chain]]}
+            top = {"hook": True, "members": [["aaa", {"hook": True, "members": [["al", {"alias": ["shared"]}]]}],
+                                             ["shared", chain]]}
+            mods.append(["emdverif_graph", top])
         yield {"modules": mods, "remove": r.random() < 0.4, "seed": r.randrange(10**6)}
+
+
+def expand(top):
+    """the module tree the class search sees: an aliased module is simply walked again where it is met"""
+    import copy
+    def find(path):
+        cur = top
+        for nm in path:
+            cur = dict(cur["members"])[nm]
+        return cur
+    def rec(m):
+        out = []
+        for nm, mem in m["members"]:
+            if "alias" in mem:
+                out.append([nm, rec(copy.deepcopy(find(mem["alias"])))])
+            elif "members" in mem:
+                out.append([nm, rec(mem)])
+            else:
+                out.append([nm, mem])
+        return {"hook": m["hook"], "members": out}
+    return rec(top)
 
 
 class Built:
@@ -62,7 +94,13 @@ class Built:
         self.next = 7
         self.mods = []
         for name, m in case["modules"]:
+            self.pending = []
             mod = self.build(name, m)
+            for holder, nm, path in self.pending:
+                cur = mod
+                for part in path:
+                    cur = getattr(cur, part)
+                setattr(holder, nm, cur)            # the SAME module object under a second parent
             sys.modules[name] = mod
             self.mods.append(name)
 
@@ -73,6 +111,7 @@ class Built:
                 emdfile.Custom.__init__(self, name=name)
                 self.first = emdfile.Array(np.arange(n, dtype=float), name="first")
                 self.second = emdfile.Node(name="second")
+                self._hidden = emdfile.Node(name="hidden")        # a node attribute with a private-looking name is still data
             @classmethod
             def _get_constructor_args(cls, group):
                 d = cls._get_emd_attr_data(cls, group)
@@ -92,7 +131,9 @@ class Built:
         if m["hook"] is not None:
             mod._emd_hook = m["hook"]
         for nm, mem in m["members"]:
-            if "members" in mem:
+            if "alias" in mem:
+                self.pending.append((mod, nm, mem["alias"]))
+            elif "members" in mem:
                 setattr(mod, nm, self.build(name + "." + nm, mem))
             elif "cls" in mem:
                 if mem["cls"] is None:
@@ -132,7 +173,7 @@ def model_modules(case, ids):
         if "cls" in mem:
             return {"cls": ids[nm], "emd": mem["cls"] is not None}
         return {"other": 1}
-    return [[name, conv(m, name)] for name, m in case["modules"]]
+    return [[name, conv(expand(m), name)] for name, m in case["modules"]]
 
 
 def expected(case, ids):
@@ -149,7 +190,7 @@ def expected(case, ids):
                 dic[nm] = ids[nm]
     for name, m in case["modules"]:
         if m["hook"] is True:
-            walk(m, 0)
+            walk(expand(m), 0)
     return dic
 
 
@@ -252,10 +293,10 @@ def oracle(case, obs):
         return {"roundtrip_of_findable_classes_raised": t["exception"]}
     for key, v in t.items():
         if key.endswith(":attrs"):
-            if v[0] != "Array" or v[1] != "Node" or v[2] != ["child"] or v[3] != ["first", "second"]:
+            if v[0] != "Array" or v[1] != "Node" or v[2] != ["child"] or v[3] != ["_hidden", "first", "second"]:
                 return {"custom_attribute_nodes": v, "node": key}
         elif key.endswith(":tags"):
-            if sorted(v) != sorted(["custom_array", "custom_node", "node"]):
+            if sorted(v) != sorted(["custom_array", "custom_node", "custom_node", "node"]):
                 return {"custom_group_tags": v, "node": key}
         elif v != "same-class":
             return {"node": key, "came_back_as": v, "saved_as": obs["made"][key]}
@@ -270,7 +311,7 @@ def known_match(case, fail, finding):
 
 def nontrivial(case):
     def depth(m):
-        return 1 + max([depth(x) for _, x in m["members"] if "members" in x], default=0)
+        return 1 + max([depth(x) for _, x in m["members"] if "members" in x], default=0)    # aliases are not followed here
     return any(depth(m) >= 3 for _, m in case["modules"])
 
 
